@@ -96,6 +96,8 @@ type ExternalPredicateCallback interface {
 type EvalOptions struct {
 	createdFactLimit int
 	totalFactLimit   int
+	// like totalFactLimit, for the temporal store (0 if there is none).
+	totalTemporalFactLimit int
 	// if non-nil, only predicates in this allowlist get evaluated.
 	predicateAllowList *func(ast.PredicateSym) bool
 	externalPredicates map[ast.PredicateSym]ExternalPredicateCallback
@@ -221,6 +223,9 @@ func EvalStratifiedProgramWithStats(programInfo *analysis.ProgramInfo,
 	}
 	if opts.createdFactLimit > 0 {
 		opts.totalFactLimit = store.EstimateFactCount() + opts.createdFactLimit
+		if opts.temporalStore != nil {
+			opts.totalTemporalFactLimit = opts.temporalStore.EstimateFactCount() + opts.createdFactLimit
+		}
 	}
 	// Set default evaluation time if not specified
 	evalTime := opts.evalTime
@@ -590,6 +595,9 @@ func (e *engine) eval() error {
 									return err
 								}
 								incrementalFactAdded = true
+								if e.options.createdFactLimit > 0 && newTemporalDeltaStore.EstimateFactCount() > e.options.createdFactLimit {
+									return fmt.Errorf("fact size limit reached evaluating %q %d > %d", deltaRule.String(), newTemporalDeltaStore.EstimateFactCount(), e.options.createdFactLimit)
+								}
 							}
 						}
 					} else {
@@ -612,6 +620,9 @@ func (e *engine) eval() error {
 			}
 			if e.options.totalFactLimit > 0 && e.store.EstimateFactCount() > e.options.totalFactLimit {
 				return fmt.Errorf("fact size limit reached %d > %d", e.store.EstimateFactCount(), e.options.totalFactLimit)
+			}
+			if e.options.totalTemporalFactLimit > 0 && e.temporalStore.EstimateFactCount() > e.options.totalTemporalFactLimit {
+				return fmt.Errorf("temporal fact size limit reached %d > %d", e.temporalStore.EstimateFactCount(), e.options.totalTemporalFactLimit)
 			}
 			if !incrementalFactAdded {
 				break
